@@ -110,10 +110,29 @@ Lookup(env, a) == LET i == CHOOSE i \in DOMAIN env : env[i].a = a /\ \A j \in 1.
      except_all_as_except    EXCEPT ALL is computed as EXCEPT (distinct)
      setop_right_assoc       a chain l op1 m op2 r is evaluated as l op1 (m op2 r) whatever the operators
      in_setop_first_branch   x IN (q1 UNION .. q2) only looks at q1
-     in_derived_all          x IN (SELECT .. FROM (derived table)) is TRUE for every row
-     extra_conjunct_ignored  conjuncts that stand next to an IN / EXISTS predicate in the same WHERE are ignored *)
+     in_derived_ignored      x [NOT] IN (SELECT .. FROM (derived table)) is TRUE for every row
+     extra_conjunct_ignored  when a WHERE contains IN / EXISTS predicates, only the first of them is evaluated and
+                             every other conjunct of that WHERE is ignored
+     semi_join_residual_dropped  the WHERE of a subquery used by [NOT] IN is ignored; of the WHERE of a subquery used
+                             by [NOT] EXISTS only the equalities with columns of enclosing queries are kept (when
+                             there is at least one)
+     intersect_all_left_multiplicity  INTERSECT ALL returns every left row that occurs on the right, as often as it
+                             occurs on the left
+     nested_pred_in_exists_ignored  in the subquery of an EXISTS that has no equality with an enclosing query, IN /
+                             EXISTS conjuncts are ignored (comparisons are evaluated)
+     agg_over_subquery_pred_null  MAX / MIN of a query whose WHERE contains IN / EXISTS is NULL *)
 InVal2(x, vals) == IF \E i \in DOMAIN vals : x # N /\ vals[i] = x THEN "T" ELSE "F"
 HasSubPred(w) == \E j \in DOMAIN w : w[j].p \in {"in", "exists"}
+FirstSubPred(w) == LET j == CHOOSE j \in DOMAIN w : w[j].p \in {"in", "exists"} /\ \A i \in 1..(j - 1) : w[i].p \notin {"in", "exists"}
+                   IN <<w[j]>>
+\* equality between a column of the subquery's own table (alias a) and a column of an enclosing query
+IsCorrEq(p, a) == /\ p.p = "cmp" /\ p.op = "eq" /\ p.l.e = "col" /\ p.r.e = "col"
+                  /\ ((p.l.a = a /\ p.r.a # a) \/ (p.l.a # a /\ p.r.a = a))
+\* the subquery as the semi-join code sees it
+SemiIn(q) == IF q.f = "sel" THEN [q EXCEPT !.where = <<>>] ELSE q
+HasCorrEq(q) == q.f = "sel" /\ (\E j \in DOMAIN q.where : IsCorrEq(q.where[j], q.from.a))
+SemiExists(q) == IF HasCorrEq(q) THEN [q EXCEPT !.where = SelectSeq(q.where, LAMBDA p : IsCorrEq(p, q.from.a))] ELSE q
+PlainExists(q) == IF q.f = "sel" /\ ~HasCorrEq(q) THEN [q EXCEPT !.where = SelectSeq(q.where, LAMBDA p : p.p \notin {"in", "exists"})] ELSE q
 \* the tree a right-associating parser builds for a left-deep chain
 RECURSIVE RightAssoc(_)
 RightAssoc(q) == IF q.f = "setop" /\ q.l.f = "setop"
@@ -141,13 +160,16 @@ PredVal(p, env, tabs, kf) ==     \* -> [err, t]
                             t |-> IF "null_eq_null" \in kf /\ l.v = N /\ r.v = N /\ p.op = "eq" THEN "T" ELSE CmpVal(p.op, l.v, r.v)]
       [] p.p = "isnull" -> LET l == ExprVal(p.l, env, tabs, kf, FALSE) IN [err |-> l.err, t |-> IF l.v = N THEN "T" ELSE "F"]
       [] p.p = "in" -> LET l == ExprVal(p.l, env, tabs, kf, FALSE)
-                           q1 == IF "in_setop_first_branch" \in kf /\ p.q.f = "setop" THEN p.q.l ELSE p.q
+                           q0 == IF "in_setop_first_branch" \in kf /\ p.q.f = "setop" THEN p.q.l ELSE p.q
+                           q1 == IF "semi_join_residual_dropped" \in kf THEN SemiIn(q0) ELSE q0
                            r == Eval(q1, env, tabs, kf)
                            vals == [i \in DOMAIN r.rows |-> r.rows[i][1]]
-                           t0 == IF "in_derived_all" \in kf /\ q1.f = "sel" /\ q1.from.t = "derived" THEN "T"
-                                 ELSE IF "in_two_valued" \in kf THEN InVal2(l.v, vals) ELSE InVal(l.v, vals)
-                       IN [err |-> ErrMax({l.err, r.err}), t |-> IF p.neg THEN Not3(t0) ELSE t0]
-      [] p.p = "exists" -> LET r == Eval(p.q, env, tabs, kf)
+                           t0 == IF "in_two_valued" \in kf THEN InVal2(l.v, vals) ELSE InVal(l.v, vals)
+                       IN IF "in_derived_ignored" \in kf /\ q1.f = "sel" /\ q1.from.t = "derived" THEN [err |-> "no", t |-> "T"]
+                          ELSE [err |-> ErrMax({l.err, r.err}), t |-> IF p.neg THEN Not3(t0) ELSE t0]
+      [] p.p = "exists" -> LET qa == IF "semi_join_residual_dropped" \in kf THEN SemiExists(p.q) ELSE p.q
+                               qb == IF "nested_pred_in_exists_ignored" \in kf THEN PlainExists(qa) ELSE qa
+                               r == Eval(qb, env, tabs, kf)
                                t == IF r.rows # <<>> THEN "T" ELSE "F"
                            IN [err |-> r.err, t |-> IF p.neg THEN Not3(t) ELSE t]
 Eval(q0, env, tabs, kf) ==        \* -> [err, rows]
@@ -155,11 +177,14 @@ Eval(q0, env, tabs, kf) ==        \* -> [err, rows]
     THEN LET q == IF "setop_right_assoc" \in kf THEN RightAssoc(q0) ELSE q0
              l == Eval(q.l, env, tabs, kf)  r == Eval(q.r, env, tabs, kf)
              all == IF "except_all_as_except" \in kf /\ q.op = "except" THEN FALSE ELSE q.all
-         IN [err |-> ErrMax({l.err, r.err}), rows |-> BagSetOp(q.op, all, l.rows, r.rows)]
+             rows == IF "intersect_all_left_multiplicity" \in kf /\ q.op = "intersect" /\ q.all
+                     THEN SelectSeq(l.rows, LAMBDA x : x \in Range(r.rows))
+                     ELSE BagSetOp(q.op, all, l.rows, r.rows)
+         IN [err |-> ErrMax({l.err, r.err}), rows |-> rows]
     ELSE LET q == q0
              src == IF q.from.t = "base" THEN [err |-> "no", rows |-> tabs[q.from.name]] ELSE Eval(q.from.q, env, tabs, kf)
              where == IF "extra_conjunct_ignored" \in kf /\ HasSubPred(q.where)
-                      THEN SelectSeq(q.where, LAMBDA p : p.p \in {"in", "exists"}) ELSE q.where
+                      THEN FirstSubPred(q.where) ELSE q.where
              Env(i) == <<[a |-> q.from.a, r |-> src.rows[i]]>> \o env
              W(i) == [j \in DOMAIN where |-> PredVal(where[j], Env(i), tabs, kf)]
              \* conjuncts are evaluated for every input row (no short-circuit is assumed: the catalogue never puts a
@@ -182,6 +207,7 @@ Eval(q0, env, tabs, kf) ==        \* -> [err, rows]
                                      \cup {ExprVal(q.proj[j], e, tabs, kf, TRUE).err : j \in DOMAIN q.proj})
                       ELSE "no"
              err == ErrMax({src.err, werr, perr, IF probe = "no" THEN "no" ELSE "may"})
-         IN [err |-> err, rows |-> IF q.agg = "none" THEN plain ELSE <<aggrow>>]
+             aggdev == "agg_over_subquery_pred_null" \in kf /\ q.agg \in {"max", "min"} /\ HasSubPred(q.where)
+         IN [err |-> err, rows |-> IF q.agg = "none" THEN plain ELSE IF aggdev THEN << <<N>> >> ELSE <<aggrow>>]
 Ref(q, tabs) == Eval(q, <<>>, tabs, {})
 =============================================================================
